@@ -279,8 +279,10 @@ BadFamily(k) == UNION { BadSegs(st) : st \in Styles2 \cup {St2, St4} } \cup BadL
 (* definitions, so that TLC evaluates each family once.                                             *)
 Rich1 == Rich("1")
 Rich2 == Rich("2")
+Rich3 == Rich("3")
 Bad1 == BadFamily("1")
-FullFamily(i) == IF Family = "spans" THEN (IF i = 1 THEN Rich1 ELSE Rich2) ELSE Bad1
+FullFamily(i) == IF Family = "spans" THEN (CASE i = 1 -> Rich1 [] i = 2 -> Rich2 [] OTHER -> Rich3) ELSE Bad1
+ASSUME MaxRich <= 3 /\ (Family = "errors" => MaxRich = 1)
 
 VARIABLES frag,    \* the source built so far and the name occurrences in it
           k,       \* segments appended
